@@ -65,6 +65,7 @@ def generate(seed, tier):
     prof = profile(
         win=t['win'], max_cells=t['max_cells'], min_cells=4,
         max_books=3, max_sheets=2, p_arr=sw.pick([0, .08]),
+        p_refop=sw.pick([0, 0, .1]),
         p_name=sw.pick([.1, .3]), p_cross=sw.pick([.5, .7]), p_text=0,
         p_bool=0, p_err=0, p_frac=.1, depth=sw.pick([1, 2]),
         w_if=sw.pick([0, 2]), w_iferror=sw.pick([1, 2.5]),
@@ -322,6 +323,10 @@ def leaves(e, conds=(), icpt=False, sw=False):
     k = e[0]
     if k == 'an':     # spill reference: unresolved when its sheet / book is
         e, k = ['r', e[1], e[2], e[3], e[4], e[3], e[4]], 'r'
+    if k in ('u', 'x'):   # union: every area; intersection: the common cells
+        for x in refs_of(e):
+            yield x, conds, icpt, sw
+        return
     if k in ('r', 'nm', 'e'):
         yield e, conds, icpt, sw
     elif k == 'op':
